@@ -829,7 +829,11 @@ fn bounds_violations(s: &Snap) -> Vec<String> {
 }
 
 #[derive(Default)]
-pub struct C20;
+pub struct C20 {
+    /// the whitelist according to the ACCEPTED AddWhitelist / RemoveWhitelist calls (starting from what the engine
+    /// reports when the history begins), not according to what the engine reports afterwards
+    own_wl: Option<BTreeSet<String>>,
+}
 
 impl Monitor for C20 {
     fn prop(&self) -> &'static str {
@@ -838,6 +842,33 @@ impl Monitor for C20 {
     fn post(&mut self, w: &World, st: &Step, r: &mut Report) {
         let post = &st.post;
         let d = post.eng.decimals;
+        let own_wl = self.own_wl.get_or_insert_with(|| st.pre.eng.whitelist.iter().cloned().collect());
+        if let (true, Op::Engine { msg, .. }) = (st.out.ok, &st.op) {
+            match msg {
+                eng::ExecuteMsg::AddWhitelist { address } => {
+                    own_wl.insert(address.clone());
+                    r.count("R0-whitelist-edits");
+                }
+                eng::ExecuteMsg::RemoveWhitelist { address } => {
+                    own_wl.remove(address);
+                    r.count("R0-whitelist-edits");
+                }
+                _ => {}
+            }
+        }
+        let reported: BTreeSet<String> = post.eng.whitelist.iter().cloned().collect();
+        if reported != *own_wl {
+            r.violation(
+                "C20",
+                "R0-whitelist-not-as-edited",
+                format!("R0|whitelist|{}", st.op.kind()),
+                format!("engine reports whitelist {:?}, accepted edits say {:?}", reported, own_wl),
+                st.seq,
+            );
+            // report once per divergence
+            *own_wl = reported;
+        }
+        let own_wl = own_wl.clone();
         // R2 / R3 bounds after any step, attributed to the step that introduced the bad value
         let pre_bad = bounds_violations(&st.pre);
         let bad: Vec<String> = bounds_violations(post).into_iter().filter(|b| !pre_bad.contains(b)).collect();
@@ -1005,7 +1036,8 @@ impl Monitor for C20 {
             return;
         }
         let increasing = s1.unsigned_abs() > s0.unsigned_abs() || (s0 != 0 && s1 != 0 && (s0 > 0) != (s1 > 0));
-        let wl = st.pre.eng.whitelist.iter().any(|a| a == sender);
+        // (membership before this step: this step is an OpenPosition and cannot have edited the list)
+        let wl = own_wl.contains(sender);
         r.eval();
         r.count("opens-under-caps");
         let oi_rel = if vs.oi_cap == 0 { "nocap" } else if post.eng.oi > vs.oi_cap { "over" } else if post.eng.oi == vs.oi_cap { "=" } else { "under" };
